@@ -43,6 +43,8 @@ EXTRA_VALUES = [
     ['s', 'a,b;c:{d}'], ['n', 1e300], ['n', -1e300], ['n', 5e-324],
     ['n', 0.1], ['b', True], ['b', False], ['d', 43831], ['s', ''],
     ['s', ' lead'], ['n', 12345678901234567890], ['s', '=not a formula'],
+    ['n', 12345678901234567], ['n', 9007199254740993],
+    ['n', -100000000000000007],
     ['s', u'日本語'], ['n', -0.0],
     # dates WITH a time of day, down to fractions of a second
     ['d', 43831.5], ['d', 44260.524270833], ['d', 36526.000011574],
@@ -55,7 +57,8 @@ ERR_FORMULAS = ['=1/0', '=NA()', '="a"+1', '=SQRT(-1)', '=#REF!',
 KIND_FORMULAS = ['=IF(A1>5,"big","")', '=LEFT("abc",0)', '=A1&""', '=1=1',
                  '=""', '="x"&"y"', '=A1*0', '=DATE(2020,1,2)', '=1=2',
                  '=A1/4', '="TRUE"', '="12"', '=8/4', '=-A1*0',
-                 u'="\xe9"&"\xdf"', '=IF(A1>1000,1,)']
+                 u'="\xe9"&"\xdf"', '=IF(A1>1000,1,)',
+                 '=99999999*99999999', '=9007199254740992+1']
 TMP = [None]
 
 
@@ -247,12 +250,29 @@ def _compile(case, build_code=True):
     return m, presets
 
 
+def _whole_beyond_double(v):
+    """the digits of a whole number held EXACTLY (an int) beyond 2^53,
+    where turning it into a float changes its value; None otherwise"""
+    v = getattr(v, 'value', v)
+    if isinstance(v, bool):
+        return None
+    if hasattr(v, 'item') and not isinstance(v, (int, float)):
+        try:
+            v = v.item()
+        except Exception:  # noqa: BLE001
+            return None
+    if isinstance(v, int) and abs(v) > 2 ** 53 and float(v) != v:
+        return str(v)
+    return None
+
+
 def describe(m):
     """plain-data picture of a model through its documented fields."""
     cells = {}
     for a, c in m.cells.items():
         cells[a] = [norm(c.value),
-                    c.formula.formula if c.formula is not None else None]
+                    c.formula.formula if c.formula is not None else None,
+                    _whole_beyond_double(c.value)]
     names = {}
     for n, dfn in m.defined_names.items():
         cls = type(dfn).__name__
